@@ -1,4 +1,4 @@
-use proc_macro2::{Span, TokenStream, TokenTree};
+use proc_macro2::{Delimiter, Span, TokenStream, TokenTree};
 use quote::quote;
 use std::borrow::Cow;
 use syn::spanned::Spanned;
@@ -395,15 +395,21 @@ impl Parser {
             }
         };
 
-        let body = match tokens.next() {
-            Some(TokenTree::Group(group)) => group.stream(),
-            Some(first) => {
+        let body = match (tokens.next(), tokens.next()) {
+            // A `{ ... }` block that is the whole body. Any other leading group - parentheses,
+            // brackets, or a block followed by more tokens - is just the start of an expression
+            // (`|lex| (lex.slice().len() as u32) + 1`) and must be kept together with the rest.
+            (Some(TokenTree::Group(group)), None) if group.delimiter() == Delimiter::Brace => {
+                group.stream()
+            }
+            (Some(first), second) => {
                 let mut body = TokenStream::from(first);
 
+                body.extend(second);
                 body.extend(tokens);
                 body
             }
-            None => {
+            (None, _) => {
                 self.err("Callback missing a body", span);
                 return None;
             }
